@@ -214,10 +214,30 @@ def norm_cond(c):
         inner = c[1]
         flip = {'==': '!=', '!=': '==', '<': '>=', '>=': '<', '>': '<=', '<=': '>'}
         if inner[0] in flip:
-            return (flip[inner[0]], inner[1], inner[2])
+            return norm_cond((flip[inner[0]], inner[1], inner[2]))
         if inner[0] == 'not':
             return norm_cond(inner[1])
+    if isinstance(c, tuple) and c and c[0] in ('>', '>='):
+        return ({'>': '<', '>=': '<='}[c[0]], c[2], c[1])
+    if isinstance(c, tuple) and c and c[0] in ('==', '!='):
+        a, b = sorted([c[1], c[2]], key=repr)
+        return (c[0], a, b)
     return c
+
+
+def same_cond(a, b):
+    return norm_cond(a) == norm_cond(b)
+
+
+def pc_under(pc, assignment):
+    """truth of a path condition when the given terms are replaced by constants (folds through
+    the constant-folding term constructors); returns True / False / None (undetermined)"""
+    c = T.subst(T.conj(pc), assignment)
+    if c == T.TRUE:
+        return True
+    if c == T.FALSE:
+        return False
+    return None
 
 
 def norm_pc(pc):
